@@ -208,7 +208,26 @@ def h_end_to_end(S, B):
     end = {"X": None, "Y": None}
     steps = B["STEPS"]
     for i in range(steps):
-        who = S.choice("step%d" % i, ["X", "Y", "closeX"])
+        who = S.choice("step%d" % i, ["X", "Y", "closeX"] + (["dropX"] if i in B.get("DROP_STEPS", ()) else []))
+        if who == "dropX":
+            # the connection is reset while the next fetch of X is on its way (the request never reaches the daemon); the
+            # daemon notices the disconnect, the client reconnects the proxy within the linger period: both streams go on
+            if end["X"] is None and p._pyroConnection is not None:
+                S.cover("fetch-lost-then-reconnected")
+                cur = p._pyroConnection.sock
+                cur.send_fault = "reset"
+                try:
+                    next(X)
+                    S.check("fetch-on-a-dead-connection-fails", False)
+                except errors.CommunicationError:
+                    pass
+                except StopIteration:
+                    end["X"] = "stop"
+                cur.server_alive = False
+                daemon._clientDisconnect(cur.server_conn)
+                cur.server_conn.close()
+                p._pyroBind()
+            continue
         if who == "closeX":
             X.close()
             if end["X"] is None:
@@ -266,9 +285,9 @@ SPECS = [
                  "check:disconnect-with-linger-keeps-stream-ownerless"],
          native_patch=env.native_env, reset=_reset,
          desc="one next/close/disconnect/housekeeping step from every stream table of <= 3 entries (owner A/B/lingering, symbolic creation and linger timestamps, 0..2 items left or failing), symbolic clock, lifetime and linger; requested id known or an arbitrary unknown string"),
-    Spec("end_to_end", h_end_to_end, {"quick": {"STEPS": 4}, "thorough": {"STEPS": 6}},
-         covers=["e2e", "check:X-stops-exactly-at-exhaustion", "check:X-reraises-the-generators-exception-at-its-position",
+    Spec("end_to_end", h_end_to_end, {"quick": {"STEPS": 4, "DROP_STEPS": [1]}, "thorough": {"STEPS": 6, "DROP_STEPS": [0, 2]}},
+         covers=["e2e", "fetch-lost-then-reconnected", "check:X-stops-exactly-at-exhaustion", "check:X-reraises-the-generators-exception-at-its-position",
                  "check:server-forgets-finished-streams"],
          native_patch=env.native_env, reset=_reset,
-         desc="two streams (iterator object / generator; lengths 0..2; one raising midway) opened on one proxy and consumed in every interleaving of STEPS next/close steps through the real client iterator and daemon"),
+         desc="two streams (iterator object / generator; lengths 0..2; one raising midway) opened on one proxy and consumed in every interleaving of STEPS next/close steps through the real client iterator and daemon; at the DROP_STEPS the connection may be reset under a fetch (request lost), the daemon sees the disconnect and the proxy reconnects within the linger period"),
 ]
